@@ -339,7 +339,13 @@ pub fn seq_lines(g: &mut FnGraph<TestFn>, fails: &[usize]) -> Vec<String> {
     while let Some(id) = topo.next(&g.graph) {
         toposort.push(id.index());
     }
-    let map: Vec<usize> = g.map(|f| f.idx).collect();
+    // `map`: collected through `by_ref`, then polled again after the end (must stay at the end)
+    let (map, map_again) = {
+        let mut it = g.map(|f| f.idx);
+        let v: Vec<usize> = it.by_ref().collect();
+        let again = it.by_ref().take(3).count();
+        (v, again)
+    };
     let fold: Vec<usize> = g.fold(vec![], |mut acc, f| {
         acc.push(f.idx);
         acc
@@ -349,8 +355,29 @@ pub fn seq_lines(g: &mut FnGraph<TestFn>, fails: &[usize]) -> Vec<String> {
     let insertion: Vec<usize> = g.iter_insertion().map(|f| f.idx).collect();
     let insertion_mut: Vec<usize> = g.iter_insertion_mut().map(|f| f.idx).collect();
     let insertion_idx: Vec<usize> = g.iter_insertion_with_indices().map(|(i, f)| i.index() * 1000 + f.idx).collect();
+    // `iter_insertion` is double-ended and exact-size: from the back, and alternately from both ends
+    let insertion_rev: Vec<usize> = g.iter_insertion().rev().map(|f| f.idx).collect();
+    let insertion_len = g.iter_insertion().len();
+    let insertion_mixed: Vec<usize> = {
+        let mut it = g.iter_insertion();
+        let mut v = vec![];
+        loop {
+            match it.next() {
+                Some(f) => v.push(f.idx),
+                None => break,
+            }
+            match it.next_back() {
+                Some(f) => v.push(f.idx),
+                None => break,
+            }
+            if v.len() > 100_000 {
+                break;
+            }
+        }
+        v
+    };
     out.push(format!(
-        "seq iter={} iter_rev={} toposort={} map={} fold={} for_each={} insertion={} insertion_mut={} insertion_idx={}",
+        "seq iter={} iter_rev={} toposort={} map={} fold={} for_each={} insertion={} insertion_mut={} insertion_idx={} map_again={} insertion_rev={} insertion_len={} insertion_mixed={}",
         csv(&iter),
         csv(&iter_rev),
         csv(&toposort),
@@ -359,7 +386,11 @@ pub fn seq_lines(g: &mut FnGraph<TestFn>, fails: &[usize]) -> Vec<String> {
         csv(&for_each),
         csv(&insertion),
         csv(&insertion_mut),
-        csv(&insertion_idx)
+        csv(&insertion_idx),
+        map_again,
+        csv(&insertion_rev),
+        insertion_len,
+        csv(&insertion_mixed)
     ));
     // try_fold / try_for_each with a failing set
     let mut seen = vec![];
